@@ -1,6 +1,6 @@
 """C07 — operations that return a result never alter or alias the tree they read."""
 from __future__ import annotations
-import contextlib, copy as _copy, io, itertools, random
+import contextlib, copy as _copy, io, itertools, random, zlib
 import core
 from core import hx
 from runner import Case
@@ -246,6 +246,20 @@ def gen(rng: random.Random, tier: str):
     cases.append(mk("get_subtree", t, 0, "/", {"q": "a", "md": 2}, h, ("corpus",)))
     cases.append(mk("prune_tree", t, 0, "/", {"paths": ["a/y", "b"], "exact": True, "sep": "/", "md": 0}, h, ("corpus",)))
     cases.append(mk("prune_tree", t, 0, "/", {"paths": [], "exact": False, "sep": "/", "md": 2}, h, ("corpus",)))
+
+    # deep trees: a chain of 105-150 levels with a few side leaves (library code that switches strategy on deep
+    # or large inputs - recursion limits, bulk paths - shows only there); then something is attached below what was a
+    # leaf at copy time, on either side (pre-order index of the deepest leaf = depth - 1 + number of side leaves above)
+    for k, fn in enumerate(("copy", "deepcopy", "copy", "clone_tree")):
+        depth = [105, 120, 150, 110][k]
+        def chain(i):
+            kids = [] if i == depth - 1 else ([("s%d" % i, {}, [])] if i % 40 == 7 else []) + [chain(i + 1)]
+            return ("c%d" % i, {"age": i} if i % 9 == 0 else {}, kids)
+        spec = chain(0)
+        n = core.spec_size(spec)
+        leaf = n - 1
+        h = [["r", "G", leaf, "below_r"], ["o", "G", leaf, "below_o"], ["r", "G", 8, "side_r"], ["o", "A", leaf, "age", 7]]
+        cases.append(mk(fn, spec, 0, "/", {}, h, ("corpus", "deep")))
 
     # small-scope: every shape x every start node for the modelled functions
     nmax = 4 if tier == "quick" else 5
@@ -510,7 +524,23 @@ def call(d, root, nodes):
             elif fn == "tree_to_polars":
                 bigtree.tree_to_polars(start, attr_dict={"age": "age"}, max_depth=md)
             elif fn == "tree_to_dot":
-                bigtree.tree_to_dot(start, node_attr=lambda n: {"shape": "box"}, edge_attr=lambda n: {"style": "bold"}).to_string()
+                if zlib.crc32(repr((d["spec"], d["start"])).encode()) % 2:
+                    bigtree.tree_to_dot(start, node_attr=lambda n: {"shape": "box"}, edge_attr=lambda n: {"style": "bold"}).to_string()
+                else:
+                    # styles read from node ATTRIBUTES (dictionaries the tree owns) together with graph-wide defaults of the
+                    # same family: the export must not write the defaults into the tree's own dictionaries
+                    for i, n in enumerate(nodes):
+                        if i % 3 != 1:
+                            n.set_attrs({"dstyle": {"shape": "box"}, "estyle": {"label": "e%d" % i}})
+                    try:
+                        bigtree.tree_to_dot(start, node_attr="dstyle", edge_attr="estyle", node_colour="gold", node_shape="circle",
+                                            edge_colour="blue").to_string()
+                    finally:
+                        for i, n in enumerate(nodes):
+                            want = ({"shape": "box"}, {"label": "e%d" % i}) if i % 3 != 1 else (None, None)
+                            if (n.__dict__.get("dstyle"), n.__dict__.get("estyle")) == want:
+                                n.__dict__.pop("dstyle", None)       # untouched: take the decoration off again
+                                n.__dict__.pop("estyle", None)       # (a changed dictionary stays and shows as an altered input)
             elif fn == "tree_to_mermaid":
                 bigtree.tree_to_mermaid(start, max_depth=md, node_attr=lambda n: "")
             elif fn == "tree_to_newick":
@@ -771,6 +801,15 @@ def oracle_dag(d):
             if dag_sig(nodes) != before:
                 msgs.append(f"{fn}: mutation {op} of the copy changed the input DAG")
                 break
+        # a second copy of the same DAG, after the first one was edited: fresh again, and equal to the ORIGINAL
+        if not msgs:
+            res2 = start.copy() if fn == "dag_copy" else _copy.deepcopy(start)
+            comp2 = dag_component(res2)
+            first = {id(x) for x in comp}
+            if any(id(x) in orig or id(x) in first for x in comp2):
+                msgs.append(f"{fn}: a second copy shares node objects with the input or with the first copy")
+            elif dag_shape(comp2) != dag_shape(dag_component(start)):
+                msgs.append(f"{fn}: a second copy differs from the original component")
     return msgs
 
 
